@@ -41,8 +41,8 @@ def go_suite(wt, module):
     return not bad, lines
 
 
-def confirm(pid, var):
-    src = os.path.join(OUT, pid, var)
+def confirm(pid, var, store_as=None):
+    src = os.path.join(os.environ.get("SEED_OUT", OUT), pid, var)
     meta = json.load(open(os.path.join(src, "meta.json")))
     patch = os.path.join(src, "patch.diff")
     demo_rel = open(os.path.join(src, "DEMO_PATH.txt")).read().strip()
@@ -118,7 +118,8 @@ def confirm(pid, var):
     finally:
         sh(["git", "-C", REPO, "worktree", "remove", "--force", wt])
         shutil.rmtree(wt, ignore_errors=True)
-    dst = os.path.join(VERIF, "seeded", f"{pid}-{var}")
+    dst = os.path.join(VERIF, "seeded", f"{pid}-{store_as or var}")
+    rec["variant"] = store_as or var
     if rec.get("confirmed"):
         os.makedirs(dst, exist_ok=True)
         shutil.copy(patch, os.path.join(dst, "patch.diff"))
@@ -161,7 +162,7 @@ def run(name, tier="quick"):
 
 if __name__ == "__main__":
     if sys.argv[1] == "confirm":
-        ok = confirm(sys.argv[2], sys.argv[3])
+        ok = confirm(sys.argv[2], sys.argv[3], sys.argv[4] if len(sys.argv) > 4 else None)
         sys.exit(0 if ok else 1)
     if sys.argv[1] == "run":
         run(sys.argv[2], sys.argv[3] if len(sys.argv) > 3 else "quick")
